@@ -519,5 +519,9 @@ def check(run):
     ob_verify_bytes(run, "O9.7")
     ob_no_panic(run, "O9.8")
     ob_before_lock(run, "O9.9")
+    # "all bitmask lengths ... rejected with an error, never a panic": the decoders every vote and certificate comes through
+    # (bounded indices, bounded bitmask, one exact door)
+    from . import C19
+    C19.check(run, prefix="O9.11")
     if run.tier == "thorough":
         witness(run, "O9.1w")
